@@ -165,7 +165,7 @@ func renderRegistry(header, namespace string, r regData, withTypes bool) []byte 
 		nFlags += len(m.Names)
 	}
 	fmt.Fprintf(&w, "/-! sizes: %d tags (%d names), %d enumerations with %d values, %d bit masks with %d flags.\n", len(r.Tags), len(r.TagsByName), len(r.Enums), nEnumVals, len(r.Masks), nFlags)
-	w.WriteString("    A name is packed as the base-256 number `0x01 <UTF-8 bytes>` (see `Kmip.pack`). -/\n\n")
+	w.WriteString("    A name is packed as the base-256 number `0x01 <UTF-8 bytes>` (see `Kmip.Reg.pack`). -/\n\n")
 
 	emitList(&w, fmt.Sprintf("ttlv.tagNames: tag number ↦ name (%d entries).", len(r.Tags)), "tagNames", pairTy, byNumElems(r.Tags, 6))
 	emitList(&w, fmt.Sprintf("ttlv.tagByName: name ↦ tag number (%d entries).", len(r.TagsByName)), "tagByName", pairTy, byNameElems(r.TagsByName, 6))
